@@ -736,6 +736,14 @@ def run_instance(inst, tier='quick', seed=0):
                       dict(corrected_vectors=len(got_keys), listed=len(listed_keys), example=list(example),
                            decode_active=got_keys.get(example), listed_active=listed_keys.get(example)),
                       'get_all_design_vectors()[pattern] == set of corrected vectors, -1 exactly where inactive', prop='C07')
+                # ... and C10: the listed vectors carry -1 at inactive positions, so a listed vector whose marking differs
+                # from what decoding reports for the same values is not one of "these corrected vectors"
+                _viol(res, 'all_design_vectors', dict(kind='all_dv_inactive_marking', encoder=f'{kind}{i_enc}', encoder_class=enc_name.split('(')[0], imputer=i_imp,
+                                                      settings=pool.settings_label(s), pattern=pl, cause=cause_of(example, got_keys.get(example), listed_keys.get(example))), cfg,
+                      dict(pattern=pl, k_pat=k_pat, vector=list(example)),
+                      dict(corrected_vectors=len(got_keys), listed=len(listed_keys), example=list(example),
+                           decode_active=got_keys.get(example), listed_active=listed_keys.get(example)),
+                      'get_all_design_vectors()[pattern] == set of corrected vectors, -1 exactly where inactive')
             if missing or extra:
                 what = 'not_listed' if missing else 'listed_not_reached'
                 example = (missing or extra)[0]
